@@ -299,6 +299,9 @@ type txPlan struct {
 	// master, answers the library's ENQ with an ENQ of its own — the block then reaches the library
 	// while it is yielding, not on the idle line
 	Contend bool
+	// Cuts/Gaps: the bytes of this transmission are sent in pieces with pauses (a dribbling sender)
+	Cuts []int
+	Gaps []time.Duration
 }
 
 type inbound struct {
@@ -311,6 +314,7 @@ type inbound struct {
 	done    bool
 	contend *txPlan // the block the peer will send when the library's next ENQ arrives
 	appSeq  int
+	builtT4 time.Duration // the T4 the connection was built with (differs from t4 when it is updated at run time)
 }
 
 func buildInbound() core.BuildFunc {
@@ -411,6 +415,18 @@ func buildInbound() core.BuildFunc {
 					p.Raw[len(p.Raw)-1-t.Choose("scn", 2)] ^= byte(1 + t.Choose("scn", 255))
 				case "bad-length":
 					p.Raw = append([]byte{[]byte{0, 5, 9, 255}[t.Choose("scn", 4)]}, p.Raw[1:]...)
+					if t.Choose("scn", 2) == 0 {
+						// the rest of the damaged transmission dribbles in: pieces 0.6*T1 apart for well over T1 in
+						// all, and late in it comes what would read on an idle line as ENQ + a complete block for
+						// this receiver. All of it is the tail of ONE bad block: discarded until the line is silent.
+						p.Kind = "bad-length-dribbling"
+						gh := refe4.Header{Device: device, R: toLibR, Stream: 99, Func: 1, Num: 1, E: true, Sys: 0x7777}
+						p.Raw = append(append(append([]byte(nil), p.Raw...), bytes.Repeat([]byte{0x20}, 24)...), append([]byte{0x05}, refe4.Wire(gh, []byte{0x41, 0x05, 'g', 'h', 'o', 's', 't'})...)...)
+						n := len(p.Raw)
+						p.Cuts = []int{n / 5, 2 * n / 5, 3 * n / 5, 4 * n / 5}
+						g := t1 * 6 / 10
+						p.Gaps = []time.Duration{time.Millisecond, g, g, g, g}
+					}
 				}
 				h.plan = append(h.plan, p)
 			}
@@ -426,7 +442,12 @@ func buildInbound() core.BuildFunc {
 				}
 			}
 		}
-		h.setup(w, active, equip, device, h.t4)
+		h.builtT4 = h.t4
+		if t.Choose("scn", 3) == 0 {
+			// the connection is built with another T4 and told the real one at run time, before any block
+			h.builtT4 = []time.Duration{5 * time.Second, 60 * time.Millisecond}[t.Choose("scn", 2)]
+		}
+		h.setup(w, active, equip, device, h.builtT4)
 		h.p.Grant = func() bool {
 			if h.contend == nil {
 				return true
@@ -443,6 +464,14 @@ func buildInbound() core.BuildFunc {
 				return
 			}
 			h.started = true
+			if h.builtT4 != h.t4 {
+				if err := h.r.C.UpdateConfigOptions(hsms.WithT4(h.t4)); err != nil {
+					w.Fail("HARNESS", "UpdateConfigOptions(WithT4): %v", err)
+
+					return
+				}
+				w.Probe("t4_updated_at_run_time")
+			}
 			h.sendNext()
 		})
 		var kinds []string
@@ -451,7 +480,7 @@ func buildInbound() core.BuildFunc {
 		}
 
 		return &core.Scenario{
-			Desc:       map[string]any{"direction": "inbound", "active": active, "equip": equip, "device": device, "T4": h.t4.String(), "blocks": kinds},
+			Desc:       map[string]any{"direction": "inbound", "active": active, "equip": equip, "device": device, "T4": h.t4.String(), "builtWithT4": h.builtT4.String(), "blocks": kinds},
 			Horizon:    120 * time.Second,
 			Done:       func() bool { return h.done && w.Idle() },
 			Final:      h.final,
@@ -462,7 +491,7 @@ func buildInbound() core.BuildFunc {
 }
 
 func (h *inbound) transmitPlanned(p txPlan) {
-	h.p.SendBlock(p.Raw, nil, nil, func(res refe4.TxResult) {
+	h.p.SendBlock(p.Raw, p.Cuts, p.Gaps, func(res refe4.TxResult) {
 		h.results = append(h.results, res)
 		h.sendNext()
 	})
@@ -498,7 +527,7 @@ func (h *inbound) sendNext() {
 		return
 	}
 	h.w.After(p.Gap, "peer-send-block", func() {
-		h.p.SendBlock(p.Raw, nil, nil, func(res refe4.TxResult) {
+		h.p.SendBlock(p.Raw, p.Cuts, p.Gaps, func(res refe4.TxResult) {
 			h.results = append(h.results, res)
 			h.sendNext()
 		})
